@@ -520,6 +520,10 @@ Error RACFGBuilder::on_invoke(InvokeNode* invoke_node, RAInstBuilder& ib) noexce
   ib._clobbered[2] |= Support::lsb_mask<RegMask>(_pass._phys_reg_count.get(RegGroup(2))) & ~fd.preserved_regs(RegGroup(2));
   ib._clobbered[3] |= Support::lsb_mask<RegMask>(_pass._phys_reg_count.get(RegGroup(3))) & ~fd.preserved_regs(RegGroup(3));
 
+  // BL/BLR write the return address to LR: a value cannot survive a call in X30 although the calling convention
+  // lists it among the registers the callee leaves intact.
+  ib._clobbered[0] |= Support::bit_mask<RegMask>(uint32_t(Gp::kIdLr));
+
   return Error::kOk;
 }
 
